@@ -127,7 +127,32 @@ def b_prod(interp: Any, args: List[Any], kwargs: Dict[str, Any]) -> Any:
     return r
 
 
+class GenericItems(list):
+    """items of an iteration over a range of symbolic length: ONE generic element"""
+
+    sym_len: Any = None
+
+
+class SymRange:
+    """range(n) for a symbolic n: iterating yields one generic index i with 0 <= i < n
+    (the statement proved about i holds for every index)."""
+
+    def __init__(self, n: Any):
+        self.n = n
+
+    def pyvc_iter(self, interp: Any) -> Any:
+        ctx = interp.ctx
+        i = ctx.fresh_int("i")
+        ctx.assume(z3.And(i.z >= 0, i.z < self.n.z))
+        ctx.__dict__.setdefault("generic_indices", []).append((i, self.n))
+        g = GenericItems([i])
+        g.sym_len = self.n
+        return g
+
+
 def b_range(interp: Any, args: List[Any], kwargs: Dict[str, Any]) -> Any:
+    if len(args) == 1 and isinstance(args[0], SV) and args[0].kind == "int":
+        return SymRange(args[0])
     if not all(isinstance(a, int) for a in args):
         h = None
         for a in args:
